@@ -12,6 +12,9 @@ Decided (envelope provenance and open-before-policy; structural):
         open/evaluation; a mismatch returns Err.
  R4 K7  Envelope <-> Struct field tables agree: each (ident!("X"), e.X) pair in From<Envelope> for
         Struct uses the field's own name, and TryFrom<Struct> reads each field X with get(fields, "X").
+ R5 K2  merge commands are content-bound: add_merge stores a received two-parent command only if its
+        id equals the id Policy::merge derives for these parents - today a KNOWN FINDING
+        (known_findings.json): the comparison does not exist.
 Not decided: what a policy's `open` block verifies (a property of the policy, e.g. crypto::verify,
 see C34)."""
 from rules.core import pat
@@ -147,3 +150,31 @@ def run(F, rep, tier):
         rep.check(good and set(table) == set(efields), "Struct->Envelope|names", "K7 table agreement",
                   "each Envelope field is read from the struct member of the same name: %s" % table,
                   "Struct -> Envelope conversion reads a field from the wrong member: %s" % table, tf.site())
+    merge_binding_rule(F, rep)
+
+
+def merge_binding_rule(F, rep):
+    """R5: every command stored by add_commands is authenticated one way or the other. A single-parent command
+    goes through the policy's open block (R2). A two-parent (merge) command is never evaluated (C02), so the
+    only thing that can authenticate it is its content binding: its id must be the id the policy derives for
+    exactly these two parents (Policy::merge over MergeIds), checked before it is stored. Otherwise any signed
+    command whose parent link is rewritten to Prior::Merge(l, r) in transit is stored unverified."""
+    T = "aranya_runtime::client::transaction::Transaction::"
+    am = F.fn(T + "add_merge")
+    adds = pat.trait_calls(am, "storage::Perspective", "add_command")
+    if not adds:
+        rep.anchor_missing("add_merge: perspective.add_command")
+        return
+    # a comparison involving the received command's id and a value derived from Policy::merge / merge-id derivation
+    bound = False
+    for c in am.cmp_switches():
+        oa, ob = am.origins(c["a"], through_calls="*"), am.origins(c["b"], through_calls="*")
+        both = oa | ob
+        if "call:id" in both and ("call:merge" in both or "call:merge_cmd_id" in both):
+            t = c.get("eq")
+            if t is not None and all(am.dominates(t, a.bb) for a in adds):
+                bound = True
+    rep.check(bound, "add_merge|merge-command-bound-to-its-parents", "K2 guarded-by",
+              "a received merge command is stored only on the equality edge of its id with the id Policy::merge derives for (left, right)",
+              "Transaction::add_merge stores whatever command arrives with a Prior::Merge parent link: its id is never compared with the id the policy derives for these two parents, "
+              "and merge commands are never evaluated, so a signed command re-parented as a merge in transit is accepted and stored without any verification", am.site())
